@@ -9,7 +9,7 @@ part of `exitForEquation` that applies the registered index lists
 An outcome is `none` (generation raises) or the selected 0-based positions.  Nothing is defaulted away: every
 place where the Python raises — the range check on integer subscripts, `get_integer` on a literal with a
 unary minus, CasADi's assertions on slices and index lists, `ForLoop.__init__` on a non-literal start,
-`Function.map` with zero iterations — is an explicit `none`.
+(before commit 8f76abc also `Function.map` with zero iterations) — is an explicit `none`.
 
 Three checks are switches of the model (`Cfg`): a range check on slice bounds, a range check on the values a
 loop-dependent subscript takes, and the Modelica reading `start:step:stop` of three-part ranges.
@@ -177,10 +177,10 @@ def loopValues (cfg : Cfg) : LoopRange → Option (List Int)
       | _, _, _ => none
 
 /-- A subscript `mul*i + off` (`mul ≠ 0`) over the loop values: `register_indexed_symbol` computes the index
-    values (through `Function.map`, which rejects zero iterations, unless the subscript is the bare loop
-    variable), and `exitForEquation` hands `values - 1` to CasADi as an index list. -/
+    values (for an empty loop there is nothing to compute — commit 8f76abc; before it `Function.map` over zero
+    values raised), checks them against the dimension (commit b779a95), and `exitForEquation` hands
+    `values - 1` to CasADi as an index list. -/
 def loopIdxSel (cfg : Cfg) (n len : Nat) (vals : List Int) (mul off : Int) : Option (List Nat) :=
-  if vals = [] ∧ ¬ (mul = 1 ∧ off = 0) then none else
   let idx := vals.map (fun v => mul * v + off)
   if cfg.loopCheck = true ∧ idx.any (fun i => decide (i < 1 ∨ i > (n : Int))) = true then none
   else casadiPick len (idx.map (· - 1))
